@@ -80,6 +80,14 @@ func goFieldKey(name string) string {
 	return k
 }
 
+// goFieldKeyNoSuffix: getSyslSafeName alone.
+func goFieldKeyNoSuffix(name string) string {
+	if !startsNameLike(name) && !goFirstCharEscaped(name) {
+		return "_" + name
+	}
+	return name
+}
+
 // goTypeKey: compiled name of a type DEFINED by the Go importers: getSyslSafeName by the
 // importer, then utils.go getSyslTypeName prefixes "_" to a non-builtin type whose
 // lower-cased name starts with a native type name.
